@@ -1,5 +1,7 @@
 mod c03;
+mod c09;
 mod c10;
+mod c13;
 mod crashx;
 mod drivers;
 mod enumx;
@@ -13,6 +15,8 @@ mod real;
 mod refmodel;
 mod report;
 mod runner;
+mod sched;
+mod schedx;
 mod seqx;
 
 use report::{Check, Tier};
@@ -41,6 +45,7 @@ fn main() {
                 "metax" => metax::worker(idx),
                 "crashx" => crashx::worker(idx),
                 "faultx" => faultx::worker(idx),
+                "schedx" => schedx::worker(idx),
                 _ => usage(),
             }
         }
@@ -81,6 +86,7 @@ fn main() {
                 Some("metax") => metax::replay(&v),
                 Some("crashx") => crashx::replay(&v),
                 Some("faultx") => faultx::replay(&v),
+                Some("schedx") => schedx::replay(&v),
                 _ => {
                     eprintln!("unknown engine in replay file");
                     2
@@ -123,6 +129,16 @@ fn run_check(id: &str, tier: Tier) -> i32 {
                 "creation of a new file is not a commit and is outside the property".into(),
             ];
             crashx::run(&mut c);
+            c.finish()
+        }
+        "C04" => {
+            let mut c = Check::new(id, tier, "model_checking");
+            c.assumptions = vec![
+                "bounded: one writer thread (chains of 2-4 commits from a menu of six bodies of different dirty-set sizes) against 1-2 reader threads; all schedules up to the preemption bound given per case".into(),
+                "scheduling points: acquisition of every library lock (verif-hooks lock seam), every write/fsync/fallocate/mmap/flock/close on the database fd, a harness yield before every bucket a reader scans and between its dumps; complete for this library because it has no atomics-based or lock-free sharing on the transaction paths".into(),
+                "std::sync::RwLock explored under both a policy-free and a writer-preferring model".into(),
+            ];
+            schedx::run(&mut c, "C04", schedx::c04_case_infos(tier), if tier == Tier::Quick { &["free"] } else { &["free", "wp"] });
             c.finish()
         }
         "C11" => {
